@@ -7,7 +7,8 @@ Driver for C06 (GLM fitting).  Request:
   `glm <family> n p <x: n*p floats> <y: n floats> <0 | 1 len w…> <0 | 1 len off…> alpha tol maxiter`
   family ∈ gaussian bernoulli quasipoisson poisson gamma exponential
 Reply:
-  `= <ok:0|1> <coef vec> <deviance> <dispersion|P> <covariance vec|P> <std errors vec|P> <predict(x) vec|P> <aic> <bic>`
+  `= <ok:0|1> <coef vec> <deviance> <dispersion|P> <covariance vec|P> <std errors vec|P> <predict(x) vec|P> <aic> <bic> <score(x,y)|P>`
+  `glm2 <family> alpha tol maxiter <problem 1> <problem 2>` (problem = n p x y w off): one object fitted twice, reply for the second fit
   (`P` = that accessor panicked) or `! panic` when `fit` itself panics.
 -/
 open Cv Cv.Glm
@@ -31,6 +32,18 @@ def c06ShowOptVec (v : Option (List Float)) : String :=
   | some l => showVec l
   | none => "P"
 
+/-- one data set: `n p <x> <y> <0 | 1 len w…> <0 | 1 len off…>` -/
+def c06Problem : P (List Float × List Float × Option (List Float) × Option (List Float)) := do
+  let n ← pNat; let p ← pNat
+  let x ← pMany pFloat (n * p); let y ← pMany pFloat n
+  let w ← c06Opt; let off ← c06Opt
+  pure (x, y, w, off)
+
+def c06Report (r : Fit Float) (x y : List Float) : String :=
+  let disp := match dispersion r with | some d => showFloat d | none => "P"
+  let sc := match score r x y with | some d => showFloat d | none => "P"
+  ok s!"{showBool r.ok} {showVec r.coef} {showFloat r.deviance} {disp} {c06ShowOptVec (coefCovariance Cv.invertMatrix r)} {c06ShowOptVec (coefStandardError Cv.invertMatrix r)} {c06ShowOptVec (predict r x)} {showFloat (aic r)} {showFloat (bic r)} {sc}"
+
 def c06Step (args : List String) : String :=
   match args with
   | "glm" :: famS :: rest =>
@@ -38,16 +51,27 @@ def c06Step (args : List String) : String :=
     | none => badOp
     | some fam =>
       withArgs (do
-        let n ← pNat; let p ← pNat
-        let x ← pMany pFloat (n * p); let y ← pMany pFloat n
-        let w ← c06Opt; let off ← c06Opt
+        let pr ← c06Problem
         let alpha ← pFloat; let tol ← pFloat; let mi ← pNat
-        pure (x, y, w, off, alpha, tol, mi)) rest fun (x, y, w, off, alpha, tol, mi) =>
+        pure (pr, alpha, tol, mi)) rest fun ((x, y, w, off), alpha, tol, mi) =>
         match fit (α := Float) Cv.solve fam x y w off alpha tol mi with
         | none => panicked
-        | some r =>
-          let disp := match dispersion r with | some d => showFloat d | none => "P"
-          ok s!"{showBool r.ok} {showVec r.coef} {showFloat r.deviance} {disp} {c06ShowOptVec (coefCovariance Cv.invertMatrix r)} {c06ShowOptVec (coefStandardError Cv.invertMatrix r)} {c06ShowOptVec (predict r x)} {showFloat (aic r)} {showFloat (bic r)}"
+        | some r => c06Report r x y
+  -- the same `GLM` object fitted twice: weights / offsets set for the first fit stay unless set again
+  | "glm2" :: famS :: rest =>
+    match c06Family famS with
+    | none => badOp
+    | some fam =>
+      withArgs (do
+        let alpha ← pFloat; let tol ← pFloat; let mi ← pNat
+        let p1 ← c06Problem; let p2 ← c06Problem
+        pure (alpha, tol, mi, p1, p2)) rest fun (alpha, tol, mi, (x1, y1, w1, o1), (x2, y2, w2, o2)) =>
+        match fit (α := Float) Cv.solve fam x1 y1 w1 o1 alpha tol mi with
+        | none => panicked
+        | some _ =>
+          match fit (α := Float) Cv.solve fam x2 y2 (w2 <|> w1) (o2 <|> o1) alpha tol mi with
+          | none => panicked
+          | some r => c06Report r x2 y2
   | _ => badOp
 
 def main (args : List String) : IO UInt32 := mainWith () (fun _ t => ((), c06Step t)) args
